@@ -2,7 +2,7 @@
 //! E2: stateright BFS over call histories on one Blowfish state; after every step the WHOLE state of the
 //! implementation is compared with the reference state (raw storage words when the layout is the plain
 //! 1042-word one, and always through 1024+ bc_encrypt probes that touch every S-box entry in round one).
-#![cfg(feature = "allfeat")]
+#![cfg(feature = "fb")]
 use super::Ctx;
 use crate::alphabet::{self as al, Tier, hex};
 use crate::report::{Report, Violation, guarded};
